@@ -35,6 +35,27 @@ def _has_quantifier(t):
   return False
 
 
+_MERGE_OK = (ast.Assign, ast.AugAssign, ast.AnnAssign, ast.Pass)
+
+
+def _mergeable(stmts):
+  """Branch bodies that only assign (possibly in nested ifs)."""
+  for st in stmts:
+    if isinstance(st, _MERGE_OK):
+      for n in ast.walk(st):
+        if isinstance(n, (ast.Yield, ast.YieldFrom, ast.Lambda)):
+          return False
+      continue
+    if isinstance(st, ast.If):
+      if not (_mergeable(st.body) and _mergeable(st.orelse)):
+        return False
+      continue
+    if isinstance(st, ast.Expr) and isinstance(st.value, ast.Constant):
+      continue
+    return False
+  return True
+
+
 def to_term(x):
   """z3 Bool of a clause result / value / Python bool."""
   if isinstance(x, bool):
@@ -71,6 +92,10 @@ class BreakSig(Signal):
 
 class ContinueSig(Signal):
   pass
+
+
+class MergeAbort(Signal):
+  """A branch that was being merged needs a real path split."""
 
 
 class PathEnd(Signal):
@@ -241,6 +266,7 @@ class Ctx:
     self.epoch = 0
     self.frozen = {}        # oid -> why (objects owned by a stored result)
     self.frozen_locals = set()
+    self.merging = 0
 
   # -- symbols ----------------------------------------------------------
   def sym(self, base):
@@ -303,8 +329,12 @@ class Ctx:
       d = self.prefix[idx]
     else:
       t_ok = self.feasible(cond)
-      f_ok = self.feasible(z3.Not(cond))
+      # the path condition itself is feasible: if one side is not, the
+      # other one is
+      f_ok = self.feasible(z3.Not(cond)) if t_ok else True
       if t_ok and f_ok:
+        if self.merging:
+          raise MergeAbort()
         d = True
         self.pending.append(self.decisions + [False])
       elif t_ok:
@@ -318,6 +348,8 @@ class Ctx:
     return d
 
   def choice(self, n):
+    if self.merging:
+      raise MergeAbort()
     idx = len(self.decisions)
     if idx < len(self.prefix):
       d = self.prefix[idx]
@@ -329,13 +361,18 @@ class Ctx:
     return d
 
   # -- obligations ------------------------------------------------------
-  def oblige(self, goal, label, kind, props=(), extra_hyps=()):
+  def oblige(self, goal, label, kind, props=(), extra_hyps=(), _split=False,
+             _name=None):
+    if len(self.decisions) < len(self.prefix):
+      # replay of a recorded prefix: this obligation was already emitted by
+      # the path that first reached this point (same code, same decisions)
+      return
     goal = to_term(goal)
     unit = self.unit
     unit.reached_labels.add(label)
     g = z3.simplify(goal)
     base = '%s/%s:%s@L%d' % (self.cur_func, kind, label, self.cur_line)
-    name = unit.unique(base)
+    name = _name or unit.unique(base)
     hyps = list(self.pc) + list(extra_hyps)
     if not z3.is_true(g):
       if z3.is_and(g):
@@ -347,6 +384,17 @@ class Ctx:
       unit.obligations.append(Obligation(name, label, kind, props,
                                          self.cur_func, self.cur_line, None,
                                          True, 'true'))
+      return
+    if z3.is_and(g) and 2 <= g.num_args() <= 16 and not _split:
+      # VC splitting: one obligation per conjunct (earlier conjuncts become
+      # hypotheses of the later ones)
+      extra = list(extra_hyps)
+      for i, c in enumerate(g.children()):
+        if c.get_id() in self.pc_ids:
+          continue
+        self.oblige(c, label, kind, props, extra_hyps=extra, _split=True,
+                    _name='%s.c%d' % (name, i))
+        extra.append(c)
       return
     lem = cardlemmas.instantiate(hyps + [g])
     s = z3.Solver()
@@ -387,8 +435,15 @@ class Ctx:
             for oid, rec in self.objects.items()}
 
   def field_default(self, obj, name):
-    """Class-level default (e.g. `_x = None`) evaluated from the AST."""
-    return self.unit.world.class_default(self, obj.cls, name)
+    """Class-level default (e.g. `_x = None`) evaluated from the AST and
+    coerced to the declared field shape."""
+    v = self.unit.world.class_default(self, obj.cls, name)
+    if v is None:
+      return None
+    cs = self.unit.world.class_spec(obj.cls)
+    if cs is not None and name in cs.fields:
+      v = conform(self, v, cs.fields[name])
+    return v
 
   def get_field(self, obj, name):
     rec = self.objects[obj.oid]
@@ -463,6 +518,14 @@ def conform(ctx, v, shape):
       v, VObj):
     return VOpaque(z3.Function('item_of_obj', z3.IntSort(), ItemSort)(
         z3.IntVal(v.oid)), 'Item')
+  if isinstance(shape, TOpaque) and shape.okind == 'Arr' and isinstance(
+      v, (VSeq, VRange)):
+    # a list handed to code that wraps it with numpy.array: an array of the
+    # same length
+    n = v.length if isinstance(v, VSeq) else z3.If(v.hi > v.lo, v.hi - v.lo, 0)
+    a = z3.Const(ctx.sym('arr_of_list'), sort_named('Arr'))
+    ctx.assume(z3.Function('len_Arr', sort_named('Arr'), z3.IntSort())(a) == n)
+    return VOpaque(a, 'Arr')
   if isinstance(shape, TSeq) and isinstance(v, VTuple) and v.tname == 'list' and (
       not v.items):
     return VSeq(z3.IntVal(0), z3.Function(ctx.sym('lst.at'), z3.IntSort(),
@@ -551,7 +614,8 @@ class Exec:
   def safety(self, goal, exc, node, what):
     """Partial operation: `goal` must hold or `exc` would be raised."""
     self.ctx.cur_line = getattr(node, 'lineno', self.ctx.cur_line)
-    self.ctx.oblige(goal, '%s:%s' % (exc, what), 'safety', ('C09',))
+    self.ctx.oblige(goal, '%s:%s' % (exc, what), 'safety',
+                    getattr(self.ctx.unit.modspec, 'safety_props', ('C09',)))
     self.ctx.assume(goal)
 
   def need_not_none(self, v, node, what):
@@ -1291,6 +1355,8 @@ class Exec:
                                for (oid, f), v in m['reads'].items()):
         for (oid, f), v in m['writes'].items():
           ctx.objects[oid].fields[f] = v
+        for f in m.get('facts', ()):
+          ctx.assume(f)
         return m['result']
     for cl in contract.requires:
       g = cl.fn(ns)
@@ -1314,6 +1380,8 @@ class Exec:
           for (oid, f), v in m['reads'].items()):
         for (oid, f), v in m['writes'].items():
           ctx.objects[oid].fields[f] = v
+        for f in m.get('facts', ()):
+          ctx.assume(f)      # idempotent; needed after a merged branch
         return m['result']
     # frame
     before = {(oid, f): v for oid, rec in ctx.objects.items()
@@ -1332,8 +1400,10 @@ class Exec:
       ctx.objects[self.deref(obj, path).oid].fields[parts[-1]] = unwrap(
           fn(NS(ctx, dict(bound), heap=None, old=old_ns)))
     post_ns = NS(ctx, vals, heap=None, old=old_ns)
+    npc0 = len(ctx.pc)
     for cl in contract.ensures:
       ctx.assume(cl.fn(post_ns))
+    new_facts = list(ctx.pc[npc0:])
     if contract.kind == 'generator':
       from mmverif.engine import loops as loopmod
       eshape = contract.elem
@@ -1361,7 +1431,8 @@ class Exec:
       if contract.reads is not None:
         reads = {k: v for k, v in reads.items()
                  if '%s.%s' % (ctx.objects[k[0]].cls, k[1]) in contract.reads}
-      ctx.memo[mkey] = {'result': result, 'writes': writes, 'reads': reads}
+      ctx.memo[mkey] = {'result': result, 'writes': writes, 'reads': reads,
+                        'facts': new_facts}
     return result
 
   def ghost_call(self, modname, qualname, self_obj, restore=True):
@@ -1537,10 +1608,137 @@ class Exec:
 
   def exec_If(self, node, env):
     c = self.eval(node.test, env)
-    if self.ctx.branch(as_bool_term(c)):
+    t = z3.simplify(as_bool_term(c))
+    if not (z3.is_true(t) or z3.is_false(t)) and (
+        self.ctx.lookup_known(t) is None) and _mergeable(node.body) and (
+            _mergeable(node.orelse)) and self.ctx.depth <= 12:
+      if self.try_merge_if(node, env, t):
+        return
+    if self.ctx.branch(t):
       self.exec_block(node.body, env)
     else:
       self.exec_block(node.orelse, env)
+
+  def try_merge_if(self, node, env, t):
+    """If-conversion: run both branches (assignments / calls only) and merge
+    the resulting variable and field values with ite, instead of splitting
+    the path.  Facts learned inside a branch are kept as implications."""
+    ctx = self.ctx
+    chain = []
+    e = env
+    while e is not None:
+      chain.append(e)
+      e = e.parent
+    snap_vars = [dict(e.vars) for e in chain]
+    snap_heap = {oid: dict(rec.fields) for oid, rec in ctx.objects.items()}
+    snap_pc = len(ctx.pc)
+    snap_ids = set(ctx.pc_ids)
+    snap_known = dict(ctx.known)
+    snap_obl = len(ctx.unit.obligations)
+    snap_names = dict(ctx.unit.names)
+    snap_dec = len(ctx.decisions)
+    snap_lheap = dict(ctx._lheap) if getattr(ctx, '_lheap', None) else None
+    results = []
+    # mutable containers (dict / list values) are updated in place: remember
+    # their contents; a branch that mutates one cannot be merged
+    mutables = {}
+    for sv in snap_vars:
+      for v in sv.values():
+        if hasattr(v, 'clone') and hasattr(v, 'same_as'):
+          mutables[id(v)] = (v, v.clone())
+    for fields in snap_heap.values():
+      for v in fields.values():
+        if hasattr(v, 'clone') and hasattr(v, 'same_as'):
+          mutables[id(v)] = (v, v.clone())
+
+    def mutated():
+      bad = False
+      for v, c in mutables.values():
+        if not v.same_as(c):
+          v.__dict__.update(c.__dict__)
+          bad = True
+      return bad
+
+    def restore():
+      for e, sv in zip(chain, snap_vars):
+        e.vars.clear()
+        e.vars.update(sv)
+      for oid, fields in snap_heap.items():
+        ctx.objects[oid].fields.clear()
+        ctx.objects[oid].fields.update(fields)
+      del ctx.pc[snap_pc:]
+      ctx.pc_ids = set(snap_ids)
+      ctx.known = dict(snap_known)
+      if snap_lheap is not None:
+        ctx._lheap.clear()
+        ctx._lheap.update(snap_lheap)
+
+    ctx.merging += 1
+    try:
+      for cond, body in ((t, node.body), (z3.Not(t), node.orelse)):
+        ctx.solver.push()
+        try:
+          ctx.assume(cond)
+          self.exec_block(body, env)
+          if len(ctx.decisions) != snap_dec or mutated():
+            raise MergeAbort()
+          results.append((
+              cond, [dict(e.vars) for e in chain],
+              {oid: dict(rec.fields) for oid, rec in ctx.objects.items()
+               if oid in snap_heap},
+              list(ctx.pc[snap_pc + 1:]),
+              dict(ctx._lheap) if snap_lheap is not None else None))
+        finally:
+          ctx.solver.pop()
+        restore()
+    except (Signal, EngineError):
+      mutated()
+      restore()
+      del ctx.unit.obligations[snap_obl:]
+      ctx.unit.names = snap_names
+      del ctx.decisions[snap_dec:]
+      return False
+    finally:
+      ctx.merging -= 1
+    (c1, vars1, heap1, pc1, lh1), (c2, vars2, heap2, pc2, lh2) = results
+    try:
+      merged_vars = []
+      for e, v1, v2, sv in zip(chain, vars1, vars2, snap_vars):
+        out = dict(sv)
+        for name in set(v1) | set(v2):
+          a, b = v1.get(name), v2.get(name)
+          if a is None or b is None:
+            if name in sv:
+              raise EngineError('merge')
+            continue
+          out[name] = a if a is b else ite_value(t, a, b)
+        merged_vars.append(out)
+      merged_heap = {}
+      for oid in snap_heap:
+        f1, f2 = heap1[oid], heap2[oid]
+        out = {}
+        for f in set(f1) | set(f2):
+          a, b = f1.get(f), f2.get(f)
+          if a is None or b is None:
+            raise EngineError('merge')
+          out[f] = a if a is b else ite_value(t, a, b)
+        merged_heap[oid] = out
+      if lh1 is not None and any(not lh1[k].eq(lh2[k]) for k in lh1):
+        raise EngineError('merge')
+    except EngineError:
+      del ctx.unit.obligations[snap_obl:]
+      ctx.unit.names = snap_names
+      return False
+    for e, mv in zip(chain, merged_vars):
+      e.vars.clear()
+      e.vars.update(mv)
+    for oid, fields in merged_heap.items():
+      ctx.objects[oid].fields.clear()
+      ctx.objects[oid].fields.update(fields)
+    for cond, facts in ((c1, pc1), (c2, pc2)):
+      for f in facts:
+        ctx.assume(z3.Implies(cond, f))
+    return True
 
   def exec_Continue(self, node, env):
     raise ContinueSig()
